@@ -53,6 +53,9 @@ def main(argv):
         sigs = sorted({l.split("sig=")[1].split()[0] for l in proc.stdout.splitlines() if "sig=" in l})
         results.append((name, prop, verdict + suite_note, round(time.time() - t0)))
         print(f"{name:42s} {prop} {verdict}{suite_note} {time.time()-t0:5.0f}s sigs={sigs[:4]}", flush=True)
+        if proc.returncode not in (0, 1):
+            for line in [l for l in proc.stdout.splitlines() if "HARNESS" in l][:3]:
+                print("    " + line[:300], flush=True)
         shutil.rmtree(scratch, ignore_errors=True)
     bad = [r for r in results if not r[2].startswith("CAUGHT")]
     print(f"{len(results) - len(bad)}/{len(results)} mutants caught")
